@@ -160,6 +160,9 @@ type Template struct {
 	// Reconnect: the command changes the state of its connection (name, replication port); the lanes get
 	// fresh connections afterwards so that later behaviours start from the same connection state on every lane.
 	Reconnect bool
+	// Pre: a command sent on the same connections right before Args (recorded and judged like any step): the
+	// state of the connection or dataset that Args is meant to show.
+	Pre []string
 	// Resets: the command may change a server setting that the dataset projection does not show
 	// (READONLY, FOLLOW, CONFIG SET, SCRIPT FLUSH); Restore() is sent afterwards.
 	Resets bool
@@ -172,8 +175,9 @@ func w(s string) Template { return Template{Args: strings.Fields(s)} }
 func a(args ...string) Template {
 	return Template{Args: args}
 }
-func deep(t Template) Template { t.Thorough = true; return t }
-func rc(t Template) Template   { t.Reconnect = true; return t }
+func deep(t Template) Template          { t.Thorough = true; return t }
+func rc(t Template) Template            { t.Reconnect = true; return t }
+func pre(p string, t Template) Template { t.Pre = strings.Fields(p); return t }
 func rs(ts ...Template) []Template {
 	for i := range ts {
 		ts[i].Resets = true
@@ -214,6 +218,7 @@ var Templates = map[string][]Template{
 		w("SET {key} {id} FIELD z 1 POINT 1 2"),
 		w("SET {key} {id} RETURN WITHFIELDS OBJECT POINT 5 6"),
 		w("SET {key} {id} FIELD {field2} {fval} RETURN WITHFIELDS POINT POINT 5 6 7"),
+		w("SET {key} {id} RETURN POINT POINT 5 6 -7.25"), w("SET {key} {id} RETURN WITHFIELDS POINT POINT 5 6 0"), w("SET {key} {id} RETURN OBJECT POINT 5 6 -7.25"),
 		w("SET {key} {id} RETURN BOUNDS POINT 5 6"),
 		w("SET {key} {id} RETURN HASH 7 POINT 5 6"),
 		w("SET {key} {id} RETURN HASH 13 POINT 5 6"),
@@ -250,7 +255,8 @@ var Templates = map[string][]Template{
 	"jdel": {w("JDEL {key} {doc} name.first"), w("JDEL {key} {doc} nosuch.path"), w("jdel {key} {doc} name"), w("JDEL {key} nosuch a"),
 		w("JDEL nosuchkey {doc} a"), w("JDEL {key} {id2} properties.n"), w("JDEL {key} {id2} properties.nosuch"), w("JDEL {key} {id} type")},
 	// ---- object reads
-	"get": {w("GET {key} {id}"), w("GET {key} {id} WITHFIELDS"), w("GET {key} {id2} WITHFIELDS OBJECT"), w("GET {key} {id3} WITHFIELDS POINT"),
+	"get": {w("GET {key} {id}"), pre("SET {key} {id} POINT -5.5 -6.5 -7.5", w("GET {key} {id} POINT")), pre("SET {key} {id} POINT -5.5 -6.5 -7.5", w("GET {key} {id} WITHFIELDS OBJECT")),
+		pre("SET {key} lowz POINT 1 2 -0.5", w("SCAN {key} POINTS")), pre("SET {key} lowz POINT 1 2 -0.5", w("NEARBY {key} DISTANCE POINTS POINT 1 2")), w("GET {key} {id} WITHFIELDS"), w("GET {key} {id2} WITHFIELDS OBJECT"), w("GET {key} {id3} WITHFIELDS POINT"),
 		w("GET {key} {id} POINT"), w("GET {key} {id2} BOUNDS"), w("GET {key} {id2} WITHFIELDS BOUNDS"), w("GET {key} {id} HASH 6"), w("GET {key} {id3} WITHFIELDS HASH 12"),
 		w("GET {key} {id} HASH 0"), w("GET {key} {id} HASH"), w("GET {key} {sid}"), w("GET {key} {sid} WITHFIELDS"), w("GET {key} {sid} POINT"), w("GET {key} {sid} BOUNDS"),
 		w("get {key} {doc}"), w("GET {key} {doc} WITHFIELDS"), w("GET {key} nosuch"), w("GET nosuchkey {id}"), w("GET {key2} {id} WITHFIELDS"), w("GET {key} {id} BOGUS")},
@@ -324,7 +330,7 @@ var Templates = map[string][]Template{
 	"config get":     {w("CONFIG GET keepalive"), w("CONFIG GET requirepass"), w("CONFIG GET *"), w("CONFIG GET nosuch"), w("CONFIG GET maxmemory")},
 	"config set":     rs(w("CONFIG SET keepalive 300"), w("CONFIG SET keepalive abc"), w("CONFIG SET nosuch 1"), w("CONFIG SET maxmemory 1gb")),
 	"config rewrite": rs(w("CONFIG REWRITE")),
-	"client":         {w("CLIENT LIST"), w("CLIENT GETNAME"), rc(w("CLIENT SETNAME {hook}")), rc(w("CLIENT SETNAME myname")), w("CLIENT KILL id 999999"), w("CLIENT KILL 1.2.3.4:5"), w("CLIENT KILL bogus"), w("CLIENT BOGUS")},
+	"client":         {w("CLIENT LIST"), w("CLIENT GETNAME"), rc(pre("CLIENT SETNAME {hook}", w("CLIENT GETNAME"))), rc(pre("CLIENT SETNAME {hook}", w("CLIENT LIST"))), rc(w("CLIENT SETNAME {hook}")), rc(w("CLIENT SETNAME myname")), w("CLIENT KILL id 999999"), w("CLIENT KILL 1.2.3.4:5"), w("CLIENT KILL bogus"), w("CLIENT BOGUS")},
 	"aof":            {Template{Args: []string{"AOF", "0"}, Live: true, AckFrames: 1}, w("AOF abc"), w("AOF 999999999999")},
 	"aofmd5":         {w("AOFMD5 0 10"), w("AOFMD5 0 0"), w("AOFMD5 abc 1"), w("AOFMD5 0 999999999999"), w("AOFMD5 0 -1")},
 	"aofshrink":      {w("AOFSHRINK")},
@@ -352,6 +358,12 @@ var Templates = map[string][]Template{
 	"timeout": {w("TIMEOUT 10 GET {key} {id}"), w("TIMEOUT 10 SET {key} viatimeout POINT 1 2"), w("TIMEOUT 10 SCAN {key} LIMIT 2 IDS"), w("TIMEOUT abc GET {key} {id}"), w("TIMEOUT -1 GET {key} {id}"),
 		w("TIMEOUT 10"), w("TIMEOUT 10 NOSUCHCOMMAND"), w("TIMEOUT 0.000001 SCAN {key}"), a("TIMEOUT", "0.05", "EVALRO", "while true do end", "0"),
 		a("TIMEOUT", "0.05", "EVAL", "while true do end", "0")},
+	// ---- errors that quote an argument
+	"+echo": {w("GET {key} {id} HASH {fval}"), w("DEL {key} {id} {fval}"), w("EXPIRE {key} {id} {fval}"), w("OUTPUT {fval}"), w("SERVER {fval}"), w("READONLY {fval}"),
+		w("{fval}"), w("{hook} {key}"), w("SET {key} {id} {fval}"), w("SCAN {key} LIMIT {fval}"), w("SCAN {key} CURSOR {fval}"), w("NEARBY {key} POINT {fval} 1"), w("JGET {key} {doc} n {fval}"),
+		w("CONFIG SET {fval} 1"), w("CONFIG {fval}"), w("SCRIPT {fval}"), w("CLIENT {fval}"), w("TIMEOUT {fval} GET {key} {id}"), w("EVAL {fval} 0"), w("EVALSHA {fval} 0"), w("SETHOOK {hook} {fval} NEARBY {key} FENCE POINT 1 1 1"),
+		w("WITHIN {key} {fval} 1 2 3 4"), w("TEST POINT 1 1 {fval} POINT 1 1"), w("SET {key} {id} FIELD lat {fval} POINT 1 1"), w("FSET {key} {id} lon {fval}"), w("AOFMD5 {fval} 1"), w("SCAN {key} HASHES {fval}"),
+		a("SET", "{key}", "{id}", "OBJECT", "{sval}"), a("WITHIN", "{key}", "OBJECT", "{sval}"), a("EVAL", "return tile38.call('get', ARGV[1])", "0", "{fval}"), a("EVAL", "return {err=ARGV[1]}", "0", "{fval}"), a("EVAL", "return {ok=ARGV[1]}", "0", "{fval}")},
 	// ---- live searches (the first reply and the pushed messages are compared by the live driver)
 	"+fence": {live(trigSet, "NEARBY {key} FENCE POINT 33.5 -115.5 100000"), live(trigSet, "WITHIN {key} FENCE DETECT enter,inside BOUNDS 32 -117 35 -114"),
 		live(trigSet, "INTERSECTS {key} FENCE NOFIELDS BOUNDS 32 -117 35 -114"), live(trigSet, "NEARBY {key} FENCE DISTANCE POINTS POINT 33.5 -115.5 100000"),
@@ -369,6 +381,7 @@ type Instance struct {
 	Reconnect bool       `json:"reconnect"`
 	AckFrames int        `json:"ackframes"`
 	Resets    bool       `json:"resets"`
+	Pre       []string   `json:"pre,omitempty"`
 	Named     bool       `json:"named"` // the arguments depend on the naming, or the reply lists names of the state
 }
 
@@ -390,7 +403,7 @@ func Instances(cmds []gates.SourceCmd) ([]Instance, error) {
 	for _, c := range cmds {
 		names = append(names, c.Name)
 	}
-	names = append(names, "+fence")
+	names = append(names, "+echo", "+fence")
 	for _, name := range names {
 		tps := Templates[name]
 		if len(tps) == 0 {
@@ -403,7 +416,7 @@ func Instances(cmds []gates.SourceCmd) ([]Instance, error) {
 				id = fmt.Sprintf("%s~%d", name, k+1)
 			}
 			out = append(out, Instance{ID: id, Base: name, Args: tp.Args, Live: tp.Live, Trigger: tp.Trigger, Thorough: tp.Thorough, Reconnect: tp.Reconnect, AckFrames: tp.AckFrames,
-				Resets: tp.Resets, Named: named(tp.Args)})
+				Resets: tp.Resets, Pre: tp.Pre, Named: named(tp.Args) || named(tp.Pre)})
 		}
 	}
 	if len(missing) > 0 {
